@@ -45,4 +45,25 @@ mod verif_kani_state {
         };
         assert!(r == expect);
     }
+
+    //@harness k_is_forward_loss_contract_sym mode=bounded bound="rounds of 4 probes, each with any ttl 1..=6 in any order (any mix of awaited/failed/skipped/complete), awaited ttl 1..=6" timeout=1500
+    #[kani::proof]
+    #[kani::unwind(7)]
+    fn k_is_forward_loss_contract_sym() {
+        let t1: u8 = kani::any(); let t2: u8 = kani::any(); let t3: u8 = kani::any(); let t4: u8 = kani::any();
+        kani::assume(t1 >= 1 && t1 <= 6 && t2 >= 1 && t2 <= 6 && t3 >= 1 && t3 <= 6 && t4 >= 1 && t4 <= 6);
+        let probes = [any_status(t1), any_status(t2), any_status(t3), any_status(t4)];
+        let t: u8 = kani::any();
+        kani::assume(t >= 1 && t <= 6);
+        let r = is_forward_loss(&probes, TimeToLive(t));
+        // the same oracle as spec_forward_loss of specs/core_state.vtpl
+        let mut first: Option<usize> = None;
+        let mut i = 0;
+        while i < 4 { if first.is_none() { if let Some(x) = ttl_of(&probes[i]) { if x > t { first = Some(i); } } } i += 1; }
+        let expect = match first {
+            None => false,
+            Some(f) => { let mut ok = true; let mut j = f; while j < 4 { if !matches!(probes[j], ProbeStatus::Awaited(_) | ProbeStatus::Skipped) { ok = false; } j += 1; } ok }
+        };
+        assert!(r == expect);
+    }
 }
